@@ -45,17 +45,22 @@ Definition dec_hdr (inp : bytes) : dec_res :=
     let masked := 128 <=? b1 in
     let l7 := b1 mod 128 in
     let ext := if l7 =? 126 then 2%nat else if l7 =? 127 then 8%nat else 0%nat in
-    if Nat.ltb (length r) ext then DecShort else
-    let plen := if Nat.eqb ext 0 then l7 else be_val (firstn ext r) in
-    let r1 := skipn ext r in
-    if 9223372036854775808 <=? plen then DecNeg else
-    if masked then
-      if Nat.ltb (length r1) 4 then DecShort else
-      DecOk {| h_fin := fin; h_rsv1 := rsv1; h_rsv2 := rsv2; h_rsv3 := rsv3; h_opc := opc;
-               h_masked := true; h_key := key_of4 (firstn 4 r1); h_plen := plen |} (skipn 4 r1)
-    else
-      DecOk {| h_fin := fin; h_rsv1 := rsv1; h_rsv2 := rsv2; h_rsv3 := rsv3; h_opc := opc;
-               h_masked := false; h_key := zero_key; h_plen := plen |} r1
+    match take_n ext r with
+    | None => DecShort
+    | Some (eb, r1) =>
+      let plen := if Nat.eqb ext 0 then l7 else be_val eb in
+      if 9223372036854775808 <=? plen then DecNeg else
+      if masked then
+        match take_n 4 r1 with
+        | None => DecShort
+        | Some (kb, r2) =>
+          DecOk {| h_fin := fin; h_rsv1 := rsv1; h_rsv2 := rsv2; h_rsv3 := rsv3; h_opc := opc;
+                   h_masked := true; h_key := key_of4 kb; h_plen := plen |} r2
+        end
+      else
+        DecOk {| h_fin := fin; h_rsv1 := rsv1; h_rsv2 := rsv2; h_rsv3 := rsv3; h_opc := opc;
+                 h_masked := false; h_key := zero_key; h_plen := plen |} r1
+    end
   | _ => DecShort
   end.
 
